@@ -146,10 +146,19 @@ func vhC06Op(e *vhC06Env, ref []*vhC06Ref, step, op int) (error, *vhC06Ref) {
 			r.fact = map[string]interface{}(f)
 			r.dependsOn = other
 		}
+	case 5: // remove a rule through the rule API
+		vassume(vhC06IsRule(r))
+		_, err = e.loc.RemRule(e.ctx, r.id)
+		if err == nil {
+			r.fact = nil
+		}
+	case 6, 7: // disable / enable a rule (a property write)
+		vassume(vhC06IsRule(r))
+		err = e.loc.EnableRule(e.ctx, r.id, op == 7)
 	default:
 		vassume(false)
 	}
-	if op == 2 && err == nil {
+	if (op == 2 || op == 5) && err == nil {
 		// the removal cascades to the fact that depends on the removed id
 		for _, x := range ref {
 			if x.dependsOn == r && x.fact != nil {
@@ -157,10 +166,18 @@ func vhC06Op(e *vhC06Env, ref []*vhC06Ref, step, op int) (error, *vhC06Ref) {
 			}
 		}
 	}
-	if op != 4 && err == nil {
+	if op != 4 && op != 6 && op != 7 && err == nil {
 		r.dependsOn = nil
 	}
 	return err, r
+}
+
+func vhC06IsRule(r *vhC06Ref) bool {
+	if r.fact == nil {
+		return false
+	}
+	_, is := r.fact["rule"]
+	return is
 }
 
 // vhC06Same: the item under id is observationally the same in a reloaded location.
